@@ -131,6 +131,19 @@ def local_case(draw, ctx):
     m = len(case["y"])
     case["j"] = draw(st.integers(0, m - 1))
     case["delta"] = draw(st.one_of(st.sampled_from([1.0, -1.0, 0.5, 100.0]), fl(-1e3, 1e3)))
+    if m >= 7 and draw(st.integers(0, 2)) == 0:
+        # an isolated spike far from the changed average: a step many times the typical one (whatever statistic of
+        # the whole series the code might consult, the intervals around the spike must not react to average j)
+        far = [i for i in range(m) if abs(i - case["j"]) >= 4]
+        if far:
+            sidx = draw(st.sampled_from(far))
+            steps = [abs(b - a) for a, b in zip(case["y"][:-1], case["y"][1:])]
+            typical = max(sorted(steps)[len(steps) // 2], 1e-3 * (max(abs(v) for v in case["y"]) + 1.0))
+            y = list(case["y"])
+            y[sidx] = y[sidx] + draw(st.sampled_from([1.0, -1.0])) * typical * draw(st.sampled_from([15.0, 40.0, 200.0]))
+            if not case.get("ydtype"):
+                case["y"] = y
+                case["spike"] = sidx
     return case
 
 
@@ -158,7 +171,7 @@ def local_body(ctx, case):
                             f"{k} ({z1[i]!r} -> {z2[i]!r}); allowed reach is {reach} interval(s)",
                             detail=dict(kw=case["kw"], n=n, y=case["y"]))
     far = min(j, m - 1 - j) >= 3
-    cls = rfagen.classes(case) + ["far-from-ends" if far else "near-end"]
+    cls = rfagen.classes(case) + ["far-from-ends" if far else "near-end"] + (["distant-spike"] if "spike" in case else [])
     ctx.record(case, cls, far and y2[j] != case["y"][j])
 
 
